@@ -157,6 +157,9 @@ func c02Comparable(p []refsem.Step) bool {
 			if !(i == len(p)-1 || (i == len(p)-2 && p[len(p)-1].Op == "count")) {
 				return false
 			}
+			if len(s.Strs) > 0 && i == len(p)-1 {
+				return false // which row represents a group depends on arrival order; only its count is comparable
+			}
 		}
 	}
 	return true
